@@ -361,6 +361,12 @@ def _list_cover(run: Run, prog: Program, model: Model, tier: str) -> None:
             elif paths:
                 run.holds("LIST-GEN", construct, g.loc, "one generated member per declared element, nothing else", nontrivial=True)
     run.floor("LIST-GEN", 8)
+    # free-form positions are pinned through from_native: the conversion must not be memoised by equality, or the
+    # member pinned for 1.0 is the one built earlier for True (necessary for "the result accepts v")
+    from .c14 import _memo
+    conv = model.visitors["Substitutor"].lookup("_from_native")
+    _memo(run, prog, model, prog.func("d42.utils._from_native.from_native"), rule="CONVERT-PURE",
+          roots=[conv] if conv is not None else None, prefixes=("d42.utils", "d42.substitution"))
 
 
 SU = "d42/substitution/_substitutor.py"
